@@ -10,18 +10,19 @@ CHECKS = {
          "its slot and nothing else in any archive; over whole histories each interval reads the last write to it or NaN if another lap took the slot - for any archive "
          "under direct writes and, from Create through any mixture of single and batch updates with every propagation chain, for the finest archive; for every archive "
          "after any such history no stale lap, foreign slot or foreign archive is ever returned (invariant carried through every step). Partial: the value of coarser "
-         "slots as one function of the whole history; page layout of filebuffer not modelled. Tied to the code by differential histories with raw-slot, byte and fetch comparison after every step.",
+         "slots as one function of the whole history (its frame half is a theorem: a single update changes only the slots stamped with the intervals of its own time, C02S.updatePoint_local); page layout of filebuffer not modelled. Tied to the code by differential histories with raw-slot, byte and fetch comparison after every step.",
          "Lean 4 theorems (ring refinement, write frame, history induction, global invariant) + correspondence check", "§5 C01"),
  "C02": ("Lean theorems for all inputs: the consolidation step (which finer values count, when the coarser slot is stored, what and where, untouched otherwise), the six "
          "aggregates stated outright, and the whole chain as a refinement - for a single update and for every batch the work-list loop equals the level-by-level chain "
          "in which the next level's list is exactly the next archive's intervals of the slots that were stored, and a level that stores nothing ends the chain; no update panics. "
+         "Locality: a single update changes in each archive behind the written one at most the slot stamped with that level's interval of the written time, and nothing else anywhere (C02S.updatePoint_local). "
          "The float32 xFilesFactor comparison is a named law validated on boundary bit patterns.",
          "Lean 4 theorems (case analysis of the step, refinement of the work-list loop) + raw-slot correspondence after every write", "§5 C02"),
  "C03": ("Acceptance, routing and the batch partition are Lean theorems over lists for all batches: the batch update equals per-archive writes of exactly the right sub-lists "
-         "of the stably sorted batch; stable-sort uniqueness gives order independence; the point supplied last wins among equal timestamps. Closed form of the acceptance test inside the clock zone. An accepted update never fails for another reason: on files satisfying the invariant every single and batch update with times in the zone returns ok, over every history from Create (C03S.accepted_history_succeeds).",
+         "of the stably sorted batch; stable-sort uniqueness gives order independence; the point supplied last wins among equal timestamps. Closed form of the acceptance test inside the clock zone, and for every clock below 2^32 (before 1970 + maximum retention every update is refused: C03.single_accept_all_clocks). An accepted update never fails for another reason: on files satisfying the invariant every single and batch update with times in the zone returns ok, over every history from Create (C03S.accepted_history_succeeds).",
          "Lean 4 theorems (list induction: stable insertion sort, span of a sorted list, filter algebra) + correspondence check on shuffled batches", "§5 C03"),
  "C04": ("The fetch shape is a function of (archive list, id, window, clock) only; failure, absence and the closed form of bounds/step/length are Lean theorems "
-         "(closed form inside the zone of 32-bit arithmetic; outside it the wrap-around is modelled faithfully and exercised), and the executed fetch has the planned shape whether or not the archive was ever written; two fetches of one archive agree at every interval common to their windows (windows_agree).",
+         "(closed form inside the zone of 32-bit arithmetic; before 1970 + retention every window up to the clock yields no series, C04.early_clock_none; after 2038 the wrap-around is modelled faithfully and exercised), and the executed fetch has the planned shape whether or not the archive was ever written; two fetches of one archive agree at every interval common to their windows (windows_agree).",
          "Lean 4 theorems (case analysis + omega over faithful uint32/int32 arithmetic) + model/implementation correspondence check", "§5 C04"),
  "C05": ("The disk-vs-view state machine: disk changes only at Sync, abandoning after any prefix leaves the last synced image, every library write lands inside an archive "
          "region so header and length are fixed; after Sync another Open returns the very handle - for created, re-created and opened files (what Open accepts is the encoding of what it returns); "
